@@ -3,6 +3,7 @@ import enum
 import re
 import warnings
 import inspect
+import itertools
 try:
     import annotationlib # py3.14+
 except ImportError:
@@ -1454,6 +1455,7 @@ def connect(m, *args, **kwargs):
                 for handle, signature in signatures.items()}
     connections = []
     any_in, any_out = False, False
+    sig_dimensions = {} # dimensions of the signature members seen so far, by `(handle, *path)`
     # Each iteration of the outer loop is intended to connect several (usually a pair) members
     # to each other, e.g. an out member `[0].a` to an in member `[1].a`. However, because we
     # do not just check signatures for equality (in order to improve diagnostics), it is possible
@@ -1528,6 +1530,8 @@ def connect(m, *args, **kwargs):
                 f"port member(s) {port_member_paths_as_string}")
         if sig_kind:
             # There are no port members at this point; we're done with this path.
+            for path, member in sig_kind:
+                sig_dimensions[path] = member.dimensions
             continue
         # There are only port members after this point.
         any_in = any_in or bool(in_kind)
@@ -1627,17 +1631,21 @@ def connect(m, *args, **kwargs):
                     warnings.warn(f"Assigning to ValueCastable input value {in_value!r} failed; "
                                 "this will become an error in Amaranth 0.7", DeprecationWarning, stacklevel=2)
                     connections.append(Value.cast(in_value).eq(out_value, src_loc_at=src_loc_at + 1))
-            def connect_dimensions(dimensions, *, out_path, in_path, src_loc_at):
-                if not dimensions:
-                    return connect_value(out_path=out_path, in_path=in_path, src_loc_at=src_loc_at)
-                dimension, *rest_of_dimensions = dimensions
-                for index in range(dimension):
-                    connect_dimensions(rest_of_dimensions,
-                        out_path=(*out_path, index), in_path=(*in_path, index),
-                        src_loc_at=src_loc_at + 1)
-            assert out_member.dimensions == in_member.dimensions
-            connect_dimensions(out_member.dimensions,
-                out_path=out_path, in_path=in_path, src_loc_at=src_loc_at + 1)
+            # The paths above do not include indices. Index through the dimensions of the port
+            # member as well as of every signature member that encloses it.
+            def dimensions_along(path, member):
+                return [*(sig_dimensions[path[:end]] for end in range(2, len(path))),
+                        member.dimensions]
+            def indexed_path(path, indices):
+                handle, *names = path
+                return (handle, *(item for name, index in zip(names, indices)
+                                       for item in (name, *index)))
+            out_dimensions = dimensions_along(out_path, out_member)
+            assert out_dimensions == dimensions_along(in_path, in_member)
+            for indices in itertools.product(*(itertools.product(*map(range, dimensions))
+                                               for dimensions in out_dimensions)):
+                connect_value(out_path=indexed_path(out_path, indices),
+                              in_path=indexed_path(in_path, indices), src_loc_at=src_loc_at)
 
     # If no connections were made, and there were inputs but no outputs in the
     # signatures, issue a diagnostic as this is most likely in error.
